@@ -3,6 +3,7 @@ package main
 import (
 	"fmt"
 	"go/types"
+	"sort"
 	"strings"
 
 	"golang.org/x/tools/go/ssa"
@@ -74,6 +75,8 @@ func runC18(c *Ctx) {
 	c18R4(c)
 	c18R5(c)
 	c18ErrorIdentity(c)
+	c18Dispatch(c)
+	c18Registration(c)
 }
 
 // storageReaching: inline only callees from which a storage call is reachable
@@ -536,4 +539,140 @@ func c18ErrorIdentity(c *Ctx) {
 		}
 	}
 	c.Check(ok && n > 0, rule, role, fn, "name-and-code", "RFC6749Error.Is reports identity only if both the error name and the status code are equal", "true is returned with only one of them compared", w)
+}
+
+// C18.R7 — endpoint dispatch loops propagate handler failures. Every endpoint
+// walks a list of handlers; a handler may say "not my request"
+// (ErrUnknownRequest), succeed, or fail. A failure of any handler must end the
+// request: the endpoint may reach a success exit only if every handler result on
+// the path is known nil or known to be ErrUnknownRequest, and no further handler
+// runs after a failed one (a later handler may already consume state — the PKCE
+// handler deletes its session in the populate phase).
+var dispatchMethods = map[string]bool{
+	".HandleTokenEndpointRequest": true, ".PopulateTokenEndpointResponse": true, ".HandleAuthorizeEndpointRequest": true,
+	".RevokeToken": true, ".IntrospectToken": true, ".HandleDeviceEndpointRequest": true, ".HandlePushedAuthorizeEndpointRequest": true,
+}
+
+func c18Dispatch(c *Ctx) {
+	const rule, role = "C18.R7", "endpoint-dispatch"
+	n := 0
+	for _, fn := range c.P.MethodsOf(pkgRoot, "Fosite") {
+		if fn.Object() == nil || !fn.Object().Exported() || !c.P.RefsMethod(fn, 1, keysOfBool(dispatchMethods)...) {
+			continue
+		}
+		ex := c.Explore(fn, rootCfg(), "root")
+		if !c.complete(ex, rule, role, fn) {
+			continue
+		}
+		ok, m := true, 0
+		var w *Path
+		why := ""
+		for _, p := range ex.Paths {
+			var failed *Event
+			for _, e := range p.Events {
+				if e.Kind != "call" || !e.Invoke || !dispatchMethods[e.Name] {
+					continue
+				}
+				m++
+				if failed != nil {
+					ok, w = false, p
+					why = fmt.Sprintf("%s (%s) still runs after %s (%s) failed", e.Name, c.P.Pos(e.Instr.Pos()), failed.Name, c.P.Pos(failed.Instr.Pos()))
+				}
+				er := errResult(e)
+				if er == nil {
+					continue
+				}
+				isNil := p.IsNil(er)
+				unknownReq := p.Holds(atomB(call("errors.Is", er, gl("fosite.ErrUnknownRequest"))), true)
+				if !isNil && !unknownReq {
+					if p.NonNil(er) {
+						failed = e
+					}
+					if p.Kind == "return" && (p.Classify() == ExitSuccess) {
+						ok, w = false, p
+						why = fmt.Sprintf("the endpoint succeeds although the result of %s (%s) is neither known nil nor known to be ErrUnknownRequest", e.Name, c.P.Pos(e.Instr.Pos()))
+					}
+				}
+			}
+		}
+		if m > 0 {
+			n++
+			c.Check(ok, rule, role, fn, "handler-failure-ends-request", "a success exit needs every handler result on the path to be nil or ErrUnknownRequest, and no handler runs after a failed one", why, w)
+		}
+	}
+	if n < 5 {
+		c.RoleUnmatched(rule, role, fmt.Sprintf("at least 5 endpoint functions dispatching to handler lists; found %d", n))
+	}
+}
+
+func keysOfBool(m map[string]bool) []string {
+	var out []string
+	for k := range m {
+		out = append(out, k)
+	}
+	sort.Strings(out)
+	return out
+}
+
+// C18.R8 — handler registration keeps every handler type, in registration
+// order. compose.Compose fills the endpoint handler lists through the Append
+// methods; the dispatch loops rely on the order (the PKCE handler after the
+// code handler, OIDC handlers after their OAuth2 companions — C03.R5, C14.R4)
+// and on no handler being dropped. Append may skip a handler only when an
+// element of the list has the identical dynamic type (reflect.TypeOf equality —
+// not the type's name or kind), and otherwise appends it at the end.
+func c18Registration(c *Ctx) {
+	const rule, role = "C18.R8", "handler-registration"
+	n := 0
+	for _, fn := range c.P.AllFuncs {
+		if fn.Name() != "Append" || fn.Parent() != nil || fnPkgPath(fn) != pkgRoot || fn.Signature.Recv() == nil || !strings.HasSuffix(recvTypeName(fn), "Handlers") {
+			continue
+		}
+		ex := c.Explore(fn, ExploreConfig{}, "append")
+		if !c.complete(ex, rule, role, fn) {
+			continue
+		}
+		n++
+		recv, h := paramNamed(fn, 0), paramNamed(fn, 1)
+		old := mk("deref", "", recv)
+		ok, nApp := true, 0
+		var w *Path
+		why := ""
+		for _, p := range ex.Paths {
+			if p.Kind != "return" {
+				continue
+			}
+			var st *Event
+			for _, e := range p.Events {
+				if e.Kind == "store" && len(e.Args) == 2 && e.Args[0].Key() == recv.Key() {
+					st = e
+				}
+			}
+			if st == nil {
+				// skipped: only for an element of identical dynamic type
+				same := false
+				for _, f := range p.Facts {
+					if f.Atom.Kind == "EQ" && f.Pol && f.Atom.A.IsCall("reflect.TypeOf") && f.Atom.B.IsCall("reflect.TypeOf") {
+						a, b := f.Atom.A.Args[0], f.Atom.B.Args[0]
+						if a.Key() == h.Key() && b.Op == "idx" && b.Args[0].Key() == old.Key() || b.Key() == h.Key() && a.Op == "idx" && a.Args[0].Key() == old.Key() {
+							same = true
+						}
+					}
+				}
+				if !same {
+					ok, w, why = false, p, "the handler is dropped without an element of identical dynamic type (reflect.TypeOf equality) in the list"
+				}
+				continue
+			}
+			nApp++
+			v := st.Args[1]
+			if !(v.IsCall("append") && len(v.Args) == 2 && v.Args[0].Key() == old.Key() && v.Args[1].Contains(h.Key())) {
+				ok, w, why = false, p, "the list becomes "+clip(v.Pretty(), 80)+": not the old list with the handler appended at the end"
+			}
+		}
+		c.Check(ok && nApp > 0, rule, role, fn, "appends-in-order-dedup-by-type", "Append skips a handler only for an element of identical dynamic type and otherwise appends it at the end of the list", why, w)
+	}
+	if n < 4 {
+		c.RoleUnmatched(rule, role, fmt.Sprintf("at least 4 Append methods of endpoint handler lists; found %d", n))
+	}
 }
